@@ -23,6 +23,7 @@ import (
 	"github.com/plgd-dev/go-coap/v3/options"
 	"github.com/plgd-dev/go-coap/v3/tcp"
 	tcpclient "github.com/plgd-dev/go-coap/v3/tcp/client"
+	tcpserver "github.com/plgd-dev/go-coap/v3/tcp/server"
 	"github.com/plgd-dev/go-coap/v3/udp"
 	udpclient "github.com/plgd-dev/go-coap/v3/udp/client"
 
@@ -333,6 +334,106 @@ func runServerStop(transport, order string, nClients int) SrvRec {
 	return r
 }
 
+// runStopEarly: Stop() arrives while an accepted connection is not yet established from the server's point of view:
+// "handshake" - a TLS listener whose peer has connected and stays silent (no ClientHello); "hook" - a tcp listener whose
+// OnNewConn callback is still running. Serve must return, and in the hook case the connection's done signal completes
+// and its on-close callback runs once after the hook returns.
+func runStopEarly(transport, what string) SrvRec {
+	r := SrvRec{Transport: transport, Order: "stop-during-" + what, Clients: 1, SrvOnClose: [][]int{}, CliOnClose: []int{}}
+	served := make(chan error, 1)
+	hookEntered := make(chan struct{}, 1)
+	hookRelease := make(chan struct{})
+	var sc *sconn
+	var mu sync.Mutex
+	onNew := func(cc *tcpclient.Conn) {
+		s := &sconn{done: cc.Done()}
+		cc.AddOnClose(func() { s.counts[0].Add(1) })
+		cc.AddOnClose(func() { s.counts[1].Add(1) })
+		mu.Lock()
+		sc = s
+		mu.Unlock()
+		if what == "hook" {
+			hookEntered <- struct{}{}
+			<-hookRelease
+		}
+	}
+	var l tcpserver.Listener
+	var laddr string
+	if transport == "tls" {
+		tl, err := coapNet.NewTLSListener("tcp4", "127.0.0.1:0", &tls.Config{Certificates: []tls.Certificate{tlsCert}})
+		if err != nil {
+			rec.Die("listen: %v", err)
+		}
+		l, laddr = tl, tl.Addr().String()
+	} else {
+		tl, err := coapNet.NewTCPListener("tcp4", "127.0.0.1:0")
+		if err != nil {
+			rec.Die("listen: %v", err)
+		}
+		l, laddr = tl, tl.Addr().String()
+	}
+	sv := tcp.NewServer(options.WithErrors(func(error) {}), options.WithOnNewConn(onNew))
+	go func() { served <- sv.Serve(l) }()
+	defer func() { _ = l.Close() }()
+	peer, err := net.DialTimeout("tcp4", laddr, wd)
+	if err != nil {
+		rec.Die("dial: %v", err)
+	}
+	defer peer.Close()
+	if what == "hook" {
+		select {
+		case <-hookEntered:
+			r.InFlight, r.Conns = 1, 1
+		case <-time.After(wd):
+		}
+	} else {
+		time.Sleep(30 * time.Millisecond) // the server has accepted the stream and waits for the ClientHello
+		r.InFlight, r.Conns = 1, 1
+	}
+	var wg sync.WaitGroup
+	for g := 0; g < 2; g++ {
+		wg.Add(1)
+		go func() { defer wg.Done(); sv.Stop() }()
+	}
+	stopped := make(chan struct{})
+	go func() { wg.Wait(); close(stopped) }()
+	if what == "hook" {
+		time.Sleep(20 * time.Millisecond)
+		close(hookRelease)
+	}
+	select {
+	case <-served:
+		r.Served = true
+	case <-time.After(wd):
+	}
+	select {
+	case <-stopped:
+	case <-time.After(wd):
+	}
+	r.CliRet, r.CliDone, r.CliOnClose = 1, 1, []int{1} // (no library client in this scenario)
+	mu.Lock()
+	s0 := sc
+	mu.Unlock()
+	if what == "hook" && s0 != nil {
+		ok := hooks.WaitFor(wd, func() bool {
+			select {
+			case <-s0.done:
+				return true
+			default:
+				return false
+			}
+		})
+		if ok {
+			r.SrvDone = 1
+		}
+		time.Sleep(2 * time.Millisecond)
+		r.SrvOnClose = append(r.SrvOnClose, []int{int(s0.counts[0].Load()), int(s0.counts[1].Load())})
+	} else {
+		r.SrvDone = r.Conns // no connection object was handed out: nothing to complete
+	}
+	return r
+}
+
 // FloodRec: a client connection whose handler is busy while the peer keeps sending, so that the receive queue is full
 // and the connection's reader is parked handing the next message over; then the connection is closed from several
 // goroutines. The reader must notice (Cancel!ReaderParked), shutdown must run: done signal, every callback once.
@@ -438,6 +539,8 @@ func RunServers(out string, rounds int) {
 		for _, tr := range []string{"udp", "tcp"} {
 			w.Put(runFlood(tr, []int{1, 2, 16}[round%3]))
 		}
+		w.Put(runStopEarly("tls", "handshake"))
+		w.Put(runStopEarly("tcp", "hook"))
 		for _, tr := range []string{"udp", "tcp", "dtls", "tls"} {
 			for _, order := range []string{"stop-first", "clients-first"} {
 				w.Put(runServerStop(tr, order, 1+round%3))
